@@ -56,17 +56,25 @@ def replay_remove_quotes(rep):
 
 
 def run(rep):
+    from contracts import sql as csql
     return generic.run_generic(
         rep, [('sqlparse.utils.remove_quotes', None), ('sqlparse.utils.remove_quotes', 'None'),
-              ('sqlparse.sql.TokenList.get_parent_name', None)] + tc.NAV_FUNCS,
+              ('sqlparse.sql.TokenList.get_parent_name', None),
+              ('sqlparse.sql.TokenList._get_first_name', 'first name, forward'),
+              ('sqlparse.sql.TokenList._get_first_name', 'first name, reverse')] + list(csql.C12_SHAPE_CASES) + tc.NAV_FUNCS,
         structural=[replay_remove_quotes, accessor_shapes, tc.identity_side_conditions],
         assumptions=['proved: quote removal (against its specification function), get_parent_name (the qualifier is the '
                      'unquoted value of the nearest non-whitespace child before the first dot, None without one; children '
-                     'values non-empty is the stated precondition, C01/I3), and the neighbour-search helpers the accessors '
-                     'are built from (first match, whitespace skipping); the other accessors (get_real_name, get_alias, '
-                     'get_name, has_alias over the Identifier shapes of DESIGN 5 C12) and the grouping that establishes '
-                     'those shapes are covered by shape obligations over the AST and by the bounded stand-in (64 119 cases '
-                     'quick, the full product of 198 000 cases thorough), not by SMT contracts',
+                     'values non-empty is the stated precondition, C01/I3), the neighbour-search helpers the accessors '
+                     'are built from (first match, whitespace skipping), _get_first_name (forward from an index / reverse: '
+                     'the first, resp. last, name leaf or nested Identifier/Function decides; loop invariant over the real '
+                     'loop), and - the statement of C12 itself - get_real_name, get_parent_name, get_alias, has_alias and '
+                     'get_name on the six Identifier shapes name | qualifier.name, each alone, with AS alias, with a bare '
+                     'alias (name leaves Name or quoted Symbol with arbitrary values, whitespace runs arbitrary and '
+                     'non-empty, the alias a nested Identifier as the grouping builds it): 30 shape cases, each result '
+                     'equal to the unquoted written name / qualifier / alias / alias-or-name / alias presence',
+                     'assumed (bounded stand-in only, 64 119 cases quick, 198 000 thorough): that the grouping passes build '
+                     'exactly these six shapes for the references the property quantifies over, in every context',
                      'str.strip(chars) is modelled only for a one-character argument (s == c* ++ result ++ c*)'],
         trusted=['CPython re engine (lexing of names and quotes)'])
 
